@@ -9,7 +9,7 @@ git -C /repo worktree add -q --detach $wt HEAD || exit 1
 if [ "$patch" = "-" ]; then (cd $wt && bash -s) ; else git -C $wt apply "$patch" || { echo "patch does not apply"; git -C /repo worktree remove --force $wt; exit 1; }; fi
 git -C $wt diff --stat | tail -1
 for id in "$@"; do
-  VERIF_EVIDENCE_DIR=/tmp/mutant-evidence VERIF_REPO=$wt /verif/check $id 2>&1 | grep -E "^VIOLATION|^C[0-9]+ quick|INCONCLUSIVE|detail" | cut -c1-400 | head -6
+  VERIF_EVIDENCE_DIR=/tmp/mutant-evidence VERIF_REPO=$wt /verif/check $id --tier ${TIER:-quick} ${SCALE:+--scale $SCALE} 2>&1 | grep -E "^VIOLATION|^C[0-9]+ (quick|thorough)|INCONCLUSIVE|detail" | cut -c1-400 | head -6
 done
 rm -f /verif/replays/*/fail-*.json
 git -C /repo worktree remove --force $wt
